@@ -12,7 +12,7 @@ import OpcuaModel.Gen.VadFacts
     receiver  `SecureChannel.readChunk`                  uasc/secure_channel.go:437
               `channelInstance.verifyAndDecrypt`         uasc/secure_channel_instance.go:262
               `SecureChannel.Receive` (chunk table)      uasc/secure_channel.go:318
-              `mergeChunks`                              uasc/secure_channel.go:1227
+              `mergeChunks`                              uasc/secure_channel.go (end of file)
 
   The functions mirror the Go code statement by statement.  The cryptographic
   primitives are parameters (`Crypto`); the theorems assume only the contract
@@ -225,19 +225,20 @@ def readChunk (insts : Nat → List Side) (wire : Bytes) : Res (Option RChunk) :
     .ok (some { chunkType := (wire.drop 3).headD 0, channelID := chan,
                 seq := u32At data 0, requestID := u32At data 4, data := data.drop 8 })
 
-/-- the loop of `mergeChunks` (`seqnr` starts at 0) -/
-def mergeLoop : Nat → List RChunk → Bytes
-  | _, [] => []
-  | seqnr, c :: cs =>
-    if c.seq = seqnr then mergeLoop seqnr cs      -- "duplicate chunk"
-    else c.data ++ mergeLoop c.seq cs
+/-- the loop of `mergeChunks`: a chunk that repeats the number of the chunk
+    before it is skipped; the first chunk (`i = 0`) is always kept -/
+def mergeLoop : Bool → Nat → List RChunk → Bytes
+  | _, _, [] => []
+  | first, seqnr, c :: cs =>
+    if first = false ∧ c.seq = seqnr then mergeLoop false seqnr cs      -- `i > 0 && … == seqnr`: duplicate chunk
+    else c.data ++ mergeLoop false c.seq cs
 
 def mergeChunks : List RChunk → Bytes
   | [] => []
   | [c] => c.data
-  | cs => mergeLoop 0 cs
+  | cs => mergeLoop true 0 cs
 
-/-- `uacp.Conn.MaxChunkCount()` / `MaxMessageSize()` of the receiving side -/
+/-- `uacp.Conn.MaxChunkCount()` / `MaxMessageSize()` of the receiving side (0 = no limit) -/
 structure Limits where
   maxChunkCount : Nat
   maxMessageSize : Nat
@@ -265,12 +266,12 @@ def receiveStep (insts : Nat → List Side) (lim : Limits) (t : Table) (wire : B
     if c.chunkType = chunkA then (t.set c.requestID [], some .err)
     else if c.chunkType = chunkC then
       let l := t c.requestID ++ [c]
-      if l.length % 4294967296 > lim.maxChunkCount then (t.set c.requestID [], some .err)
+      if lim.maxChunkCount ≠ 0 ∧ l.length % 4294967296 > lim.maxChunkCount then (t.set c.requestID [], some .err)
       else (t.set c.requestID l, none)
     else
       let all := t c.requestID ++ [c]
       let b := mergeChunks all
-      if b.length % 4294967296 > lim.maxMessageSize then (t.set c.requestID [], some .err)
+      if lim.maxMessageSize ≠ 0 ∧ b.length % 4294967296 > lim.maxMessageSize then (t.set c.requestID [], some .err)
       else (t.set c.requestID [], some (.ok { requestID := c.requestID, channelID := c.channelID, body := b }))
 
 /-- feed the chunks in order until `Receive` returns; the third component is
